@@ -48,6 +48,17 @@ Theorem C15_wcrtomb_s_delivers_the_encoding : forall c utf8 retvalp dest dmax wc
      (forall x, ~ (dest <= x < dest + dmax) -> ~ (retvalp <= x < retvalp + 8) -> m' x = m x)).
 Proof. exact wcrtomb_s_spec. Qed.
 Print Assumptions C15_wcrtomb_s_delivers_the_encoding.
+Theorem C15_wctomb_s_delivers_the_encoding : forall c utf8 retvalp dest dmax wc m bs,
+  retvalp <> 0 -> dest <> 0 -> 1 <= dmax <= rmax_wstr c -> wc_enc utf8 wc = Some bs -> (1 <= length bs)%nat ->
+  Z.of_nat (length bs) < dmax -> Z.of_nat (length bs) < 4294967296 -> Forall (fun b => 0 <= b < 256) bs ->
+  (retvalp + 4 <= dest \/ dest + dmax <= retvalp) ->
+  Wp.wp (wctomb_s c utf8 retvalp dest dmax wc BOS_UNKNOWN) m (fun r m' =>
+     r = EOK /\ load m' 4 retvalp = Z.of_nat (length bs) /\
+     (forall i, (i < length bs)%nat -> m' (dest + Z.of_nat i) = nth i bs 0) /\
+     (null_slack c = true -> forall x, dest + Z.of_nat (length bs) <= x < dest + dmax -> m' x = 0) /\
+     (forall x, ~ (dest <= x < dest + dmax) -> ~ (retvalp <= x < retvalp + 4) -> m' x = m x)).
+Proof. exact wctomb_s_spec. Qed.
+Print Assumptions C15_wctomb_s_delivers_the_encoding.
 (* known finding conv-known-bos-len-clears-object: dmax elements fit the known object, len elements do not: the failing exit clears the object *)
 Theorem C15_mbstowcs_s_bos_len_refuted : ~ writes_in (convP 1000 (2 * 4) 5000 8) (mbstowcs_s cfg_default true 5000 1000 2 3000 20 40).
 Proof. exact mbstowcs_s_bos_len_refuted. Qed.
